@@ -22,7 +22,7 @@ def check_pin(chk):
            'smbus-pec is built with the lookup-table feature; the structural read-out applies to the bitwise routine')
 
 
-def check(chk):
+def check(chk, shape='C03.c', table='C03.e', burst=None):
     """C03.c: structural parameters of smbus_pec::pec from its MIR (-Zalways-encode-mir)."""
     check_pin(chk)
     from extract import extract
@@ -31,7 +31,7 @@ def check(chk):
     prog = Program(path)
     keys = [k for k in prog.instances if prog.instances[k]['path'] == 'smbus_pec::pec' or k.endswith('smbus_pec::pec')]
     if not keys:
-        chk.ob('C03.c', 'smbus_pec::pec body', False, chk.key('crate', 'C03.c', 'smbus_pec::pec', 'no-mir'),
+        chk.ob(shape, 'smbus_pec::pec body', False, chk.key('crate', shape, 'smbus_pec::pec', 'no-mir'),
                'the MIR of smbus_pec::pec is not available; its parameters cannot be read')
         return
     inst = prog.instances[keys[0]]
@@ -69,10 +69,12 @@ def check(chk):
         'no shift right / no final XOR': not any(o in ('Shr', 'Not') for o in ops) and sum(1 for o in ops if o == 'BitXor') == 1,
     }
     for name, ok in facts.items():
-        chk.ob('C03.c', 'pec: ' + name, ok, chk.key('crate', 'C03.c', 'smbus_pec::pec', 'shape:' + name),
+        chk.ob(shape, 'pec: ' + name, ok, chk.key('crate', shape, 'smbus_pec::pec', 'shape:' + name),
                'structural parameter of the PEC routine not recognised: %s' % name)
     chk.extra['pec_routine'] = {'instance': keys[0], 'constants': sorted(set(map(str, consts)))}
-    crc_table(chk, prog, keys[0])
+    tab = crc_table(chk, prog, keys[0], table)
+    if burst:
+        burst_clause(chk, tab, burst)
 
 
 def ref_crc8(x):
@@ -83,7 +85,7 @@ def ref_crc8(x):
     return crc
 
 
-def crc_table(chk, prog, key):
+def crc_table(chk, prog, key, rule='C03.e'):
     """C03.e: the per-byte transition of the PEC routine equals the CRC-8/0x07 step for all 256 values.
 
     smbus_pec::pec is abstractly interpreted on a slice of exactly one symbolic byte x (accumulator 0, so the value fed to
@@ -104,9 +106,9 @@ def crc_table(chk, prog, key):
     try:
         leaves, na = it.run(key, make)
     except Exception as e:
-        chk.ob('C03.e', 'pec([x]) for all x', False, chk.key('crate', 'C03.e', 'smbus_pec::pec', 'cannot-interpret'),
+        chk.ob(rule, 'pec([x]) for all x', False, chk.key('crate', rule, 'smbus_pec::pec', 'cannot-interpret'),
                'the PEC routine cannot be interpreted: %r' % (e,))
-        return
+        return None
     x = in_leaf('data', 0)
     seen = {}
     bad = []
@@ -126,8 +128,51 @@ def crc_table(chk, prog, key):
         got = seen.get(v, [])
         if got != [ref_crc8(v)]:
             bad.append('pec([0x%02X]) = %s, CRC-8/0x07 gives 0x%02X' % (v, got, ref_crc8(v)))
-    chk.ob('C03.e', 'pec([x]) == CRC-8/0x07(x) for all 256 x', not bad,
-           chk.key('crate', 'C03.e', 'smbus_pec::pec', 'table:' + (bad[0] if bad else '')),
+    chk.ob(rule, 'pec([x]) == CRC-8/0x07(x) for all 256 x', not bad,
+           chk.key('crate', rule, 'smbus_pec::pec', 'table:' + (bad[0] if bad else '')),
            'the PEC routine is not CRC-8 with polynomial 0x07, initial value 0: %s' % '; '.join(bad[:3]),
            show='%d leaves partition the 256 values of the byte; on each the returned bit-vector equals the reference CRC-8 step' % len(leaves))
     chk.extra['pec_single_byte_leaves'] = len(leaves)
+    if any(len(seen.get(v, [])) != 1 or seen[v][0] is None for v in range(256)):
+        return None
+    return [seen[v][0] for v in range(256)]
+
+
+def burst_clause(chk, T, rule):
+    """C02.e: no corruption confined to eight consecutive bits turns a valid packet into an accepted one.
+
+    Premises decided elsewhere: (i) acceptance implies last byte == pec(all bytes before it) (C02.a/b), i.e. the accumulator
+    after folding the whole packet, PEC byte included, is 0 (because step(acc, b) = T[acc ^ b] and T[0] = 0); (ii) pec is
+    the left fold of that step from 0 (shape facts); (iii) T is the table derived from the routine's MIR above.
+    Decided here, by finite enumeration over the *derived* table: T is GF(2)-linear and injective, so the difference of the
+    accumulators of two equally long inputs evolves as d' = T[d ^ e] (e = XOR of the two inputs' bytes at that position),
+    independent of the data; a burst of at most eight bits touches one byte (e != 0: d' = T[e] != 0) or two adjacent bytes
+    with error bytes (e1, e2) = (b >> k, (b << (8-k)) & 0xFF): the difference after both is T[T[e1] ^ e2], non-zero iff
+    T[e1] != e2; afterwards e = 0 and d' = T[d] stays non-zero. A non-zero final difference means the corrupted packet's
+    accumulator is not 0, so it is not accepted."""
+    if T is None:
+        chk.ob(rule, 'burst clause', False, chk.key('crate', rule, 'smbus_pec::pec', 'no-table'),
+               'the per-byte table of the PEC routine could not be derived, so the burst-error clause cannot be decided')
+        return
+    n = 0
+    lin = [(a, b) for a in range(256) for b in range(a, 256) if T[a ^ b] != T[a] ^ T[b]]
+    n += 256 * 257 // 2
+    chk.ob(rule, 'step table is GF(2)-linear', not lin and T[0] == 0, chk.key('crate', rule, 'smbus_pec::pec', 'linear'),
+           'the per-byte step of the PEC routine is not linear: T[%s]' % (lin[:1],))
+    inj = len(set(T)) == 256
+    chk.ob(rule, 'step table is injective', inj, chk.key('crate', rule, 'smbus_pec::pec', 'injective'),
+           'two accumulator values collapse in one step (the generator has a zero constant term): an error can be absorbed')
+    bad = []
+    for b in range(1, 256):
+        for k in range(0, 8):
+            e1, e2 = b >> k, (b << (8 - k)) & 0xFF
+            n += 1
+            if e1 == 0 and e2 == 0:
+                bad.append((b, k))
+            elif e1 and T[e1] == e2:
+                bad.append((b, k))
+    chk.evals(n)
+    chk.ob(rule, 'every burst of <= 8 bits (255 patterns x 8 alignments) leaves a non-zero accumulator difference', not bad,
+           chk.key('crate', rule, 'smbus_pec::pec', 'burst:%s' % (bad[:1],)),
+           'a corruption confined to eight consecutive bits is absorbed by the PEC: pattern/alignment %s' % (bad[:3],),
+           show='linear: 32896 pairs; injective: 256 values; bursts: 2040 (pattern, alignment) cases; all on the table derived from the MIR of smbus_pec::pec')
